@@ -342,7 +342,7 @@ func (c16) Run(c core.Case, w *core.Worker) core.Result {
 		db.Close()
 		data := filepath.Join(dir, "000000000.data")
 		orig, _ := os.ReadFile(data)
-		for _, cause := range []string{"non-numeric-name", "corrupt-first-chunk", "data-file-is-directory", "truncated-mid-file"} {
+		for _, cause := range []string{"non-numeric-name", "corrupt-first-chunk", "data-file-is-directory", "truncated-mid-file", "corrupt-hint-in-finished-merge"} {
 			undo := func() {}
 			switch cause {
 			case "non-numeric-name":
@@ -358,6 +358,28 @@ func (c16) Run(c core.Case, w *core.Worker) core.Result {
 				p := filepath.Join(dir, "000000007.data")
 				os.Mkdir(p, 0755)
 				undo = func() { os.Remove(p) }
+			case "corrupt-hint-in-finished-merge":
+				// a finished, not yet adopted merge whose hint file is damaged: the adopting Open
+				// fails while loading the hint, after the lock was taken and files were opened
+				os.WriteFile(data, orig, 0644)
+				d0, err := kv.Open(cfg.Options(dir))
+				if err != nil {
+					continue
+				}
+				for i := 0; i < 40; i++ {
+					d0.Put([]byte(fmt.Sprintf("m%d", i%7)), core.FillValue(uint64(i+1), 300))
+				}
+				merr := d0.Merge()
+				d0.Close()
+				hint := filepath.Join(dir+"-merge", "000000000.hint")
+				hb, herr := os.ReadFile(hint)
+				if merr != nil || herr != nil || len(hb) < 10 {
+					continue
+				}
+				hb[len(hb)/2] ^= 0x55
+				os.WriteFile(hint, hb, 0644)
+				orig, _ = os.ReadFile(data)
+				undo = func() {}
 			case "truncated-mid-file":
 				p := filepath.Join(dir, "000000001.data")
 				os.WriteFile(p, []byte("y"), 0644) // newer file exists, so file 0 is not the newest
